@@ -143,7 +143,7 @@ def smtp_case(cfg):
     for sock in socks:       # all bodies arrive before anyone runs: the sessions hand off concurrently
         sock.feed(b''.join(DataSender(b'Subject: t\r\n\r\nbody\r\n')))
     vt.settle()
-    _release(st, socks, marks, seen, log)
+    _release(st, socks, marks, seen, log, age=cfg.get('age', 0))
     for sock in socks:
         sock.shutdown_peer()
     vt.settle()
@@ -157,7 +157,14 @@ def _codes(out):
     return [int(m.group(1)) for m in re.finditer(rb'(?m)^(\d\d\d) ', out)]
 
 
-def _release(st, socks, marks, seen, log):
+def _age(age):
+    """a write that takes its time: `age` seconds pass (virtual clock) while it is still running"""
+    if age:
+        vt.CLOCK.advance_to(vt.CLOCK.now + age, vt.settle)
+        vt.settle()
+
+
+def _release(st, socks, marks, seen, log, age=0):
     # slow writes: look at the wire before and after each one is allowed to finish
     def look():
         for k, sock in enumerate(socks):
@@ -169,6 +176,8 @@ def _release(st, socks, marks, seen, log):
         look()
         if st is None or not st.gates:
             break
+        _age(age)
+        look()
         st.gates.pop(0).set()
         vt.settle()
     look()
@@ -200,6 +209,7 @@ def wsgi_case(cfg):
     for _ in range(8):
         if st is None or not st.gates:
             break
+        _age(cfg.get('age', 0))
         st.gates.pop(0).set()
         vt.settle()
     for g in gs:
@@ -269,6 +279,8 @@ def main():
                         for slow in ([1], [1, k + 1], list(range(1, 2 * k + 1))):
                             cases.append(dict(proxy=False, policies=policies, nrcpt=nrcpt, nenv=k, fail=fail, slow=slow, relay='none', nsess=nsess,
                                               store_pool=sp))
+    # slow storage: every third case with a gated write is run once more with seven seconds passing before each write ends
+    cases += [dict(c, age=7) for j, c in enumerate([c for c in cases if c.get('slow')]) if j % 3 == 0]
     for cfg in cases:
         for edge in ('smtp', 'wsgi'):
             idx += 1
